@@ -23,6 +23,7 @@ type C06Case struct {
 	Chunks      []int      `json:"chunks"` // random schedule (cyclic)
 	EOFWithData bool       `json:"eof_with_data"`
 	Files       bool       `json:"files"` // also compare File(plain), File(.gz), File(nonexistent)
+	Light       bool       `json:"light,omitempty"` // huge input: only memory vs. the chunk schedule vs. CRLF
 }
 
 // genStreamText draws a well-formed text (possibly larger than bufio's buffers) or, with
@@ -107,6 +108,23 @@ func checkC06(c C06Case, o *Obs) error {
 	}
 	if err := sched(fmt.Sprintf("delivery in chunks %v (eof with data: %v)", c.Chunks, c.EOFWithData), c.Chunks, c.EOFWithData); err != nil {
 		return err
+	}
+	if c.Light {
+		o.Class("huge line (MiB scale)")
+		if c.Text.wellFormed() {
+			for i, it := range base {
+				if it.Err != nil {
+					return fmt.Errorf("%s: well-formed input yields an error at item %d: %v (input %s)", c.Format, i, it.Err, gen.Abbrev(text))
+				}
+			}
+			crlf := c.Text.Render(true)
+			o.Class("crlf")
+			got, over, p := collect(func(cb func(Item) bool) { codec.Reader(bytes.NewReader(crlf), cb) }, limit)
+			if p != nil || over || !sameKeys(got, base) {
+				return fmt.Errorf("%s: CRLF rendering decodes to %s, LF rendering to %s (panic %v; LF input %s, longest line %d bytes)", c.Format, describeItems(got), describeItems(base), p, gen.Abbrev(text), c.Text.longestLine())
+			}
+		}
+		return nil
 	}
 	if len(text) <= 6000 {
 		o.Class("chunk=1")
@@ -286,6 +304,20 @@ func checkC06(c C06Case, o *Obs) error {
 		if err := compare("File(plain file), another pass over the same iterator value", again); err != nil {
 			return err
 		}
+		// ... also when the abandoned pass is the very first use of the value (plain and *.gz), and
+		// when two passes were abandoned at different points
+		for _, path := range []string{plain, gz} {
+			fresh := codec.FileSeq(path)
+			collect(fresh, 1)
+			if err := compare("File("+filepath.Ext(path)+" file): a pass over an iterator value whose first pass was abandoned after one item", fresh); err != nil {
+				return err
+			}
+			collect(fresh, 2)
+			collect(fresh, 1)
+			if err := compare("File("+filepath.Ext(path)+" file): a pass over an iterator value after a full pass and two abandoned ones", fresh); err != nil {
+				return err
+			}
+		}
 		// a *.gz that cannot be opened as gzip (zero bytes; not gzip data) yields an error, no records
 		for _, bad := range [][]byte{{}, []byte("this is not gzip data\n")} {
 			badPath := filepath.Join(scratchDir(), fmt.Sprintf("bad%d.%s.gz", nextTmp(), c.Format))
@@ -446,6 +478,43 @@ func exhaustiveC06(thorough bool, emit func(C06Case) bool) {
 			}
 			if !emit(C06Case{Format: f, Text: StreamText{Lines: ls}, Chunks: []int{4096}, EOFWithData: n%2 == 0}) {
 				return
+			}
+		}
+	}
+	// the same at MiB scale: a line whose content is exactly 2^k-1 or 2^k bytes long (quick: k = 20
+	// and 24; thorough: every k from 16 to 24, also 2^k-2 and 2^k+1), LF against CRLF and against
+	// a delivery in 1 MiB-and-a-bit chunks
+	{
+		ks, ds := []int{20, 24}, []int{-1, 0}
+		if thorough {
+			ks, ds = []int{16, 17, 18, 19, 20, 21, 22, 23, 24}, []int{-2, -1, 0, 1}
+		}
+		for _, f := range codecNames {
+			for _, k := range ks {
+				for _, d := range ds {
+					n := 1<<k + d
+					pad := func(base int) string { return strings.Repeat("ACGT", n/4+1)[:n-base] }
+					var ls []gen.B
+					switch f {
+					case "fasta":
+						ls = []gen.B{gen.B(">a"), gen.B("AC"), gen.B(">b"), gen.B(pad(0)), gen.B(">" + pad(1)), gen.B("GT")}
+					case "fastq":
+						ls = []gen.B{gen.B("@a"), gen.B("AC"), gen.B("+"), gen.B("II"), gen.B("@b"), gen.B(pad(0)), gen.B("+"), gen.B(strings.Repeat("I", n)), gen.B("@c"), gen.B("G"), gen.B("+"), gen.B("J")}
+					case "sam", "samh":
+						base := "q2\t0\tr\t1\t2\tM\t=\t4\t5\tA\tI\tXX:Z:"
+						ls = []gen.B{gen.B("q1\t0\tr\t1\t2\tM\t=\t4\t5\tA\tI"), gen.B(base + pad(len(base))), gen.B("q4\t0\tr\t1\t2\tM\t=\t4\t5\tA\tI")}
+						if f == "samh" {
+							ls = append([]gen.B{gen.B("@CO\t" + pad(4))}, ls...)
+						}
+					case "bed":
+						ls = []gen.B{gen.B("c\t1\t2\tn"), gen.B("c\t1\t2\t" + pad(6)), gen.B("d\t3\t4\tm")}
+					case "newick":
+						ls = []gen.B{gen.B("(a,b)c;"), gen.B("(" + pad(6) + ",b)d;"), gen.B("(e)f;")}
+					}
+					if !emit(C06Case{Format: f, Text: StreamText{Lines: ls}, Chunks: []int{1<<20 + 7}, EOFWithData: k%2 == 0, Light: true}) {
+						return
+					}
+				}
 			}
 		}
 	}
